@@ -73,10 +73,21 @@ def job_motion(cfg):
     c = new_context()
     facade.install()
     et, motion = cfg["elem"], cfg["motion"]
-    mesh = simlib.gmsh_mesh(et, layers=1) if et != "MIXED" else simlib.transform_mesh(simlib.mixed_mesh_interior(), np.diag([0.5, 0.5, 1.0]))
+    def base_mesh():
+        m0 = simlib.gmsh_mesh(et, layers=1) if et != "MIXED" else simlib.transform_mesh(simlib.mixed_mesh_interior(), np.diag([0.5, 0.5, 1.0]))
+        if cfg.get("merged"):
+            # half model + mirror image glued with the library's own Symmetry + Merge: one element group then mixes both numbering orientations
+            from EasyFEA import Mesh
+
+            other = m0.copy()
+            other.Symmetry((1.0, 0.0, 0.0), (1.0, 0.0, 0.0))
+            m0 = Mesh.Merge([m0, other])
+        return m0
+
+    mesh = base_mesh()
     dim = mesh.dim
-    exact_measure = Fraction(1)
-    key = f"{et} {motion}"
+    exact_measure = Fraction(2 if cfg.get("merged") else 1)
+    key = f"{et} {motion}" + (" half + mirrored half" if cfg.get("merged") else "")
     res.functions |= {"Mesh.Translate", "Mesh.Rotate", "Mesh.Symmetry", "Geoms._utils.Rotate", "Geoms._utils.Symmetry", "Geoms._utils._Rotation_matrix", "_GroupElem.coord (setter)",
                       "_GroupElem.Get_F_e_pg", "_GroupElem.Get_jacobian_e_pg", "_GroupElem.area/volume", "_GroupElem.Get_normals_e_pg", "_GroupElem.inDim"}
     d = [c.var(f"d{i}", -1, 1) for i in range(3)]
@@ -111,7 +122,7 @@ def job_motion(cfg):
     def moved(env):
         import math
 
-        m2 = simlib.gmsh_mesh(et, layers=1) if et != "MIXED" else simlib.transform_mesh(simlib.mixed_mesh_interior(), np.diag([0.5, 0.5, 1.0]))
+        m2 = base_mesh()
         df = [fval(env, x) for x in d]
         cf, sf = fval(env, cs), fval(env, sn)
         ang = math.degrees(math.atan2(sf, cf))
@@ -139,6 +150,17 @@ def job_motion(cfg):
         return (float(np.abs(ns).max()) > 1e-9 or abs(float(fl) - dim * 1.0) > 1e-9), \
             {"sum_int_n": ns.tolist(), "flux_of_position_vector": float(fl), "expected_flux": dim * 1.0, "boundary_elements_pointing_inward_on_the_unmoved_mesh": f"{n_in}/{n_all}", **info}
 
+    if cfg.get("merged"):
+        def replay_m(env):
+            m2, info = moved(env)
+            meas = float(m2.area if dim == 2 else m2.volume)
+            return abs(meas - 2.0) > 1e-9, {"measure": meas, "exact": 2.0, **info}
+
+        res.record(f"{key}: measure is the exact measure", prove_abs_le(as_sym(measure) - exact_measure, TOL, pcs, key), replay_m, key=f"{key} measure")
+        o = prove_abs_le(as_sym(measure) - exact_measure * Fraction(1001, 1000), TOL, pcs, "twin")
+        res.twin(f"{key} twin", o.status == "cex")
+        res.stubs |= facade.USED_STUBS
+        return res  # the glued interface keeps interior boundary elements: the closure / flux obligations are for meshes of a whole domain
     res.record(f"{key}: measure is the exact measure", prove_abs_le(as_sym(measure) - exact_measure, TOL, pcs, key), replay, key=f"{key} measure",
                sample={"config": key, "obligation": "for all translations, all rotation angles (c^2+s^2=1), all reflection offsets: |measure(moved mesh) - exact measure| <= 1e-9"})
     # the motion itself transports the boundary correctly: with the orientation each boundary element has on the unmoved mesh
@@ -317,6 +339,8 @@ def main():
         configs.append({"kind": "locate", "elem": et})
     # (cubic elements: the float reference gradients do not sum to exactly zero, a symbolic translation then enters every Jacobian with 1e-17
     #  coefficients and the tolerance queries are not decided within the budget -> first- and second-order elements only)
+    for et in ["TRI3", "QUAD4", "TETRA4"] + (["TRI6", "HEXA8", "PRISM6"] if tier == "thorough" else []):
+        configs.append({"kind": "motion", "elem": et, "motion": "TR", "merged": True})
     for et in ["TRI3", "TRI6", "TETRA4"]:
         configs.append({"kind": "locate", "elem": et, "moved": True})
     # elements whose first edge is not along x: their local frame (_Get_sysCoord_e) differs from the global one once the mesh leaves z = 0
